@@ -24,7 +24,7 @@ import (
 )
 
 type step struct {
-	Op string `json:"op"` // block | msg | release
+	Op string `json:"op"` // block | msg | release | adv (the chain advances by H blocks, default 1)
 	H  uint64 `json:"h,omitempty"`
 	Id uint64 `json:"id,omitempty"`
 }
@@ -38,6 +38,15 @@ type input struct {
 	Total  *uint64     `json:"total,omitempty"`
 	Steps  []step      `json:"steps"`
 	Finish bool        `json:"finish"`
+	// kind "hist": the SAME SyncMachine executed once per entry, each call run to its return
+	Runs []runSpec `json:"runs,omitempty"`
+}
+
+type runSpec struct {
+	Prog     []stateSpec `json:"prog"`
+	StartRel int64       `json:"startRel"`        // start block = chain height at the Execute call + StartRel
+	Steps    []step      `json:"steps"`           // forced while Execute runs
+	After    []step      `json:"after,omitempty"` // environment events after Execute returned, before the next call
 }
 
 type runResult struct {
@@ -56,11 +65,6 @@ func runSchedule(in input, budget time.Duration) runResult {
 	if !w.settle(budget) {
 		return runResult{ok: false, w: w}
 	}
-	isDone := func() bool {
-		w.mu.Lock()
-		defer w.mu.Unlock()
-		return w.done
-	}
 	for _, s := range in.Steps {
 		switch s.Op {
 		case "block":
@@ -77,34 +81,191 @@ func runSchedule(in input, budget time.Duration) runResult {
 		}
 	}
 	if in.Finish {
-		var sum uint64
-		for _, s := range in.Prog {
-			sum += s.Delay + s.Active
-		}
-		gap := in.Start - in.H0
-		if in.H0 > in.Start {
-			gap = 0
-		}
-		limit := sum + gap + 50
-		if limit > 5000 {
-			limit = 5000
-		}
-		for i := uint64(0); i < limit && !isDone(); i++ {
-			if !w.release() {
-				w.mu.Lock()
-				h := w.height
-				w.mu.Unlock()
-				if h == math.MaxUint64 {
-					break
-				}
-				w.block(h + 1)
-			}
-			if !w.settle(budget) {
-				return runResult{ok: false, w: w}
-			}
+		if settled, _ := finish(w, in.Prog, in.Start, in.H0, budget); !settled {
+			return runResult{ok: false, w: w}
 		}
 	}
 	return runResult{ok: true, w: w, settled: true}
+}
+
+// apply performs one scripted environment action; false when it was a no-op.
+func apply(w *world, s step) bool {
+	switch s.Op {
+	case "block":
+		w.block(s.H)
+	case "adv":
+		inc := s.H
+		if inc == 0 {
+			inc = 1
+		}
+		w.mu.Lock()
+		h := w.height
+		w.mu.Unlock()
+		if h > math.MaxUint64-inc {
+			return false
+		}
+		w.block(h + inc)
+	case "msg":
+		w.msg(s.Id)
+	case "release":
+		return w.release()
+	}
+	return true
+}
+
+// finish releases gates and feeds blocks one by one until Execute has returned (done) or the
+// block limit is reached; settled is false when the machine did not reach quiescence in time.
+func finish(w *world, prog []stateSpec, start, h0 uint64, budget time.Duration) (settled, done bool) {
+	var sum uint64
+	for _, s := range prog {
+		sum += s.Delay + s.Active
+	}
+	gap := start - h0
+	if h0 > start {
+		gap = 0
+	}
+	limit := sum + gap + 50
+	if limit > 5000 {
+		limit = 5000
+	}
+	isDone := func() bool {
+		w.mu.Lock()
+		defer w.mu.Unlock()
+		return w.done
+	}
+	for i := uint64(0); i < limit && !isDone(); i++ {
+		if !w.release() {
+			if !apply(w, step{Op: "adv", H: 1}) {
+				break
+			}
+		}
+		if !w.settle(budget) {
+			return false, false
+		}
+	}
+	return true, isDone()
+}
+
+type runObs struct {
+	prog     []stateSpec
+	start    uint64
+	h0       uint64
+	log      []event
+	outcome  string
+	panicTxt string
+	leftover int // messages accepted during this Execute and never handed to a state
+	inits    int
+	recvs    int
+}
+
+// runHistory executes the runs of a history one after the other on ONE SyncMachine.
+func runHistory(in input, budget time.Duration) (obs []runObs, ok bool) {
+	if len(in.Runs) == 0 {
+		return nil, false
+	}
+	w := newWorld(in.Runs[0].Prog, in.H0)
+	defer w.stop()
+	w.newMachine(logger)
+	for _, r := range in.Runs {
+		h0 := w.beginRun(r.Prog)
+		start := uint64(int64(h0) + r.StartRel)
+		if r.StartRel < 0 && uint64(-r.StartRel) > h0 {
+			start = 0
+		}
+		w.exec(start)
+		if !w.settle(budget) {
+			return nil, false
+		}
+		for _, s := range r.Steps {
+			if !apply(w, s) {
+				continue
+			}
+			if !w.settle(budget) {
+				return nil, false
+			}
+		}
+		if settled, done := finish(w, r.Prog, start, h0, budget); !settled || !done {
+			return nil, false
+		}
+		w.mu.Lock()
+		o := runObs{prog: r.Prog, start: start, h0: h0, outcome: w.outcome, panicTxt: w.panicText, leftover: w.enq - w.recv}
+		w.mu.Unlock()
+		for _, s := range r.After {
+			if s.Op == "release" {
+				continue
+			}
+			apply(w, s)
+		}
+		w.mu.Lock()
+		o.log = append([]event{}, w.log...)
+		w.mu.Unlock()
+		for _, e := range o.log {
+			if e.Kind == kMInit {
+				o.inits++
+			}
+			if e.Kind == kMRecv {
+				o.recvs++
+			}
+		}
+		obs = append(obs, o)
+	}
+	return obs, true
+}
+
+func runHist(in input, id string) emitted {
+	obs, ok := runHistory(in, 2*time.Second)
+	if !ok {
+		obs, ok = runHistory(in, 8*time.Second)
+	}
+	if !ok {
+		return emitted{skipped: true, tallies: []string{"inconclusive-skipped"}}
+	}
+	terms := make([]string, len(obs))
+	var keys []string
+	var outs []map[string]interface{}
+	t := []string{fmt.Sprintf("hist-executions-%d", len(obs))}
+	leftoverBefore, nontrivial := false, false
+	outcomes := ""
+	for i, o := range obs {
+		evs := make([]string, len(o.log))
+		for j, e := range o.log {
+			evs[j] = e.Coq()
+		}
+		terms[i] = fmt.Sprintf("{| c_prog := %s; c_start := %d; c_h0 := %d; c_total := None; c_eager := true; c_settled := true; c_events := %s |}",
+			renderProg(o.prog), o.start, o.h0, lib.List(evs))
+		keys = append(keys, fmt.Sprintf("%s|%d|%d|%s", renderProg(o.prog), o.start, o.h0, strings.Join(evs, ";")))
+		out := map[string]interface{}{"log": evs, "outcome": o.outcome, "leftInBuffer": o.leftover}
+		if o.panicTxt != "" {
+			out["error"] = o.panicTxt
+		}
+		outs = append(outs, out)
+		if leftoverBefore && o.inits >= 1 {
+			nontrivial = true
+		}
+		if o.leftover > 0 {
+			leftoverBefore = true
+		}
+		if i > 0 {
+			outcomes += ","
+		}
+		outcomes += o.outcome
+		t = append(t, "hist-outcome-"+o.outcome)
+	}
+	if nontrivial {
+		t = append(t, "hist-buffer-not-empty-at-return-then-re-executed")
+	}
+	return emitted{
+		c: lib.Case{
+			ID:         id,
+			Coq:        "(CHist " + lib.List(terms) + ")",
+			Key:        "hist|" + strings.Join(keys, "||"),
+			Nontrivial: nontrivial,
+			Sig:        map[string]interface{}{"kind": "hist", "outcomes": outcomes},
+			In:         in,
+			Out:        outs,
+		},
+		tallies: t,
+	}
 }
 
 func renderProg(p []stateSpec) string {
@@ -256,6 +417,9 @@ func runDur(in input, id string) emitted {
 func run(in input, id string) emitted {
 	if in.Kind == "dur" {
 		return runDur(in, id)
+	}
+	if in.Kind == "hist" {
+		return runHist(in, id)
 	}
 	return runTrace(in, id)
 }
@@ -423,6 +587,123 @@ func smallScope() []input {
 	return out
 }
 
+// ---------------------------------------------------------------- re-execution histories
+
+func histCorpus() []input {
+	S := func(d, a uint64) stateSpec { return stateSpec{Delay: d, Active: a} }
+	M := func(id uint64) step { return step{Op: "msg", Id: id} }
+	A := step{Op: "adv"}
+	R := step{Op: "release"}
+	var out []input
+	// an attempt aborted by a failing Initiate with messages already buffered, then a retry
+	out = append(out, input{Kind: "hist", H0: 9, Runs: []runSpec{
+		{Prog: []stateSpec{{Delay: 1, Active: 5, InitErr: true, GateInit: true}, S(1, 2)}, StartRel: 1,
+			Steps: []step{M(1), A, M(2), A, M(3), R}},
+		{Prog: []stateSpec{S(1, 3), S(0, 2)}, StartRel: 2, Steps: []step{A, A, A, M(4), A, M(5), A, A}},
+	}})
+	// the second state's Initiate fails; messages delivered during its delay are left behind
+	out = append(out, input{Kind: "hist", H0: 20, Runs: []runSpec{
+		{Prog: []stateSpec{S(0, 1), {Delay: 2, Active: 1, InitErr: true}}, StartRel: 0,
+			Steps: []step{M(1), A, M(2), M(3), A, M(4)}, After: []step{M(5), A}},
+		{Prog: []stateSpec{S(0, 2), S(1, 1)}, StartRel: 1, Steps: []step{M(6), A, M(7), A, A}},
+	}})
+	// Next fails while messages are still buffered (Initiate held past the end block)
+	out = append(out, input{Kind: "hist", H0: 5, Runs: []runSpec{
+		{Prog: []stateSpec{{Delay: 0, Active: 1, GateInit: true, NextErr: true}, S(1, 1)}, StartRel: 0,
+			Steps: []step{M(1), M(2), M(3), M(4), A, A, R}},
+		{Prog: []stateSpec{S(1, 2)}, StartRel: 0, Steps: []step{A, M(5), A}},
+	}})
+	// a complete run whose last state was outrun by the chain, then a second run in the past
+	out = append(out, input{Kind: "hist", H0: 30, Runs: []runSpec{
+		{Prog: []stateSpec{S(0, 1), {Delay: 0, Active: 1, GateInit: true}}, StartRel: 0,
+			Steps: []step{A, M(1), M(2), M(3), A, A, R}},
+		{Prog: []stateSpec{S(0, 0), S(1, 1)}, StartRel: -2, Steps: []step{M(4), A, M(5)}},
+	}})
+	// two aborted attempts, then a complete one
+	out = append(out, input{Kind: "hist", H0: 100, Runs: []runSpec{
+		{Prog: []stateSpec{{Delay: 2, Active: 2, InitErr: true}}, StartRel: 1, Steps: []step{M(1), A, M(2), A}},
+		{Prog: []stateSpec{S(1, 1), {Delay: 1, Active: 2, InitErr: true, GateInit: true}}, StartRel: 1,
+			Steps: []step{A, A, M(3), A, A, M(4), R}},
+		{Prog: []stateSpec{S(1, 2), S(0, 0), S(1, 1)}, StartRel: 3, Steps: []step{A, A, A, A, M(5), A, M(6)}},
+	}})
+	return out
+}
+
+func randomHistory(r *lib.Rng) input {
+	nRuns := 2
+	if r.Chance(1, 4) {
+		nRuns = 3
+	}
+	id := uint64(0)
+	var runs []runSpec
+	for j := 0; j < nRuns; j++ {
+		n := r.Range(1, 4)
+		prog := make([]stateSpec, n)
+		for i := range prog {
+			if !r.Chance(3, 10) {
+				prog[i].Delay = uint64(r.Intn(4))
+				prog[i].Active = uint64(r.Intn(5))
+			}
+			prog[i].GateInit = r.Chance(1, 4)
+			prog[i].GateNext = r.Chance(1, 12)
+		}
+		aborted := j < nRuns-1
+		if aborted {
+			switch x := r.Intn(100); {
+			case x < 70: // a failing Initiate, mostly early, mostly after a delay and held
+				k := 0
+				if r.Bool() {
+					k = r.Intn(n)
+				}
+				prog[k].InitErr = true
+				if prog[k].Delay == 0 && r.Chance(2, 3) {
+					prog[k].Delay = uint64(r.Range(1, 3))
+				}
+				prog[k].GateInit = r.Bool()
+			case x < 85:
+				k := r.Intn(n)
+				prog[k].NextErr = true
+				prog[k].GateInit = true
+			default: // completes; the last state's Initiate is held so that the select is contended
+				prog[n-1].GateInit = true
+			}
+		} else if r.Chance(1, 10) {
+			prog[r.Intn(n)].InitErr = true
+		}
+		var st []step
+		if aborted {
+			for k := r.Range(1, 3); k > 0; k-- {
+				id++
+				st = append(st, step{Op: "msg", Id: id})
+			}
+		}
+		for i, m := 0, r.Range(5, 24); i < m; i++ {
+			switch x := r.Intn(100); {
+			case x < 50:
+				st = append(st, step{Op: "adv"})
+			case x < 55:
+				st = append(st, step{Op: "adv", H: uint64(r.Range(2, 4))})
+			case x < 93:
+				id++
+				st = append(st, step{Op: "msg", Id: id})
+			default:
+				st = append(st, step{Op: "release"})
+			}
+		}
+		var after []step
+		for k := r.Intn(3); k > 0; k-- {
+			if r.Bool() {
+				id++
+				after = append(after, step{Op: "msg", Id: id})
+			} else {
+				after = append(after, step{Op: "adv"})
+			}
+		}
+		runs = append(runs, runSpec{Prog: prog, StartRel: int64(r.Intn(6)) - 2, Steps: st, After: after})
+	}
+	return input{Kind: "hist", H0: uint64(r.Intn(100000)) + 5, Runs: runs}
+}
+
 type job struct {
 	in input
 	id string
@@ -469,6 +750,14 @@ func main() {
 		jobs = append(jobs, job{randomSchedule(rng.Fork(fmt.Sprintf("rand%d", i))), fmt.Sprintf("rand-%04d", i)})
 	}
 
+	for i, in := range histCorpus() {
+		jobs = append(jobs, job{in, fmt.Sprintf("hist-corpus-%02d", i)})
+	}
+	nHist := o.Count(120, 1500)
+	for i := 0; i < nHist; i++ {
+		jobs = append(jobs, job{randomHistory(rng.Fork(fmt.Sprintf("hist%d", i))), fmt.Sprintf("hist-%04d", i)})
+	}
+
 	results := make([]emitted, len(jobs))
 	var wg sync.WaitGroup
 	sem := make(chan struct{}, 8)
@@ -494,7 +783,9 @@ func main() {
 		em.Case(e.c)
 	}
 	em.Close("a case is the linearised event log of one forced schedule of the real SyncMachine "+
-		"(or the walked real state chain of gjkr / dkg result); distinct by (program, start, initial height, log); "+
-		"non-trivial when at least two states were initiated and at least one message was handed to a state",
+		"(or the walked real state chain of gjkr / dkg result), or the logs of successive Execute calls on ONE SyncMachine "+
+		"(a re-execution history); distinct by (program, start, initial height, log); "+
+		"non-trivial when at least two states were initiated and at least one message was handed to a state; a history "+
+		"when an Execute returned with accepted messages not handed over and a later Execute initiated a state",
 		map[string]interface{}{"skipped": skipped})
 }
